@@ -53,6 +53,26 @@ def by_expr(a, f, mode):
     return "|a: &%s, s| ::dx_support::hash_by(s, %s)" % (t, ka)
 
 
+# bound(...) arguments written next to everything else: they must not change what is accepted or computed (C05 / C01 guises)
+BOUND_GUISE = None      # None | "this_empty" | "shared_empty" | "helper_first" | "helper_last" | "helper_dd"
+
+
+def _guise_args(args):
+    if not args or BOUND_GUISE not in ("helper_first", "helper_last", "helper_dd"):
+        return args
+    if BOUND_GUISE == "helper_first":
+        return ["bound()"] + args
+    return args + (["bound(..)"] if BOUND_GUISE == "helper_dd" else ["bound()"])
+
+
+def dlist(D):
+    if BOUND_GUISE == "this_empty":
+        return ", ".join("%s(bound())" % t for t in D)
+    if BOUND_GUISE == "shared_empty":
+        return ", ".join(list(D) + ["bound()"])
+    return ", ".join(D)
+
+
 def attrs_src(f, mode, order=None):
     out = []
     for a in (order or ATTRS):
@@ -67,7 +87,7 @@ def attrs_src(f, mode, order=None):
         if o["sel"] == "by":
             args.append("by = " + by_expr(a, f, mode))
         if args:
-            out.append("#[%s(%s)]" % (a, ", ".join(args)))
+            out.append("#[%s(%s)]" % (a, ", ".join(_guise_args(args))))
     return " ".join(out)
 
 
@@ -86,17 +106,17 @@ def level_attrs_src(cfg):
         if o["sel"] == "by":
             args.append("by = |_, _| true")
         if args:
-            out.append("#[%s(%s)]" % (a, ", ".join(args)))
+            out.append("#[%s(%s)]" % (a, ", ".join(_guise_args(args))))
     return " ".join(out)
 
 
 def item_src(P, D, name, mode, entry, for_rustc=False, generics="", extra_attrs=""):
     """Rust source of the item carrying the derive request."""
-    dlist = ", ".join(D)
+    dl = dlist(D)
     if entry == "attr":
-        head = "#[%sderive_ex(%s)]" % ("::derive_ex::" if for_rustc else "", dlist)
+        head = "#[%sderive_ex(%s)]" % ("::derive_ex::" if for_rustc else "", dl)
     else:
-        head = ("#[derive(::derive_ex::Ex)] " if for_rustc else "") + "#[derive_ex(%s)]" % dlist
+        head = ("#[derive(::derive_ex::Ex)] " if for_rustc else "") + "#[derive_ex(%s)]" % dl
     head += extra_attrs + " " + level_attrs_src(P["tcmp"])
 
     def fields_src(v):
